@@ -323,7 +323,11 @@ class WFile(io.BytesIO):
 
 
 class WDelegate:
-    """Recording delegate around a real file object (placed in proxy._opener.fobj)."""
+    """Recording delegate around a real file object (placed in proxy._opener.fobj); also used as a hand-written
+    duck-typed handle: it is NOT an io.IOBase, it just has read / readinto / seek / tell / write."""
+
+    def write(self, b):
+        raise OSError('read-only test handle')
 
     def __init__(self, inner, rec, wlock):
         self.inner, self.rec, self.wlock = inner, rec, wlock
@@ -539,18 +543,23 @@ class Scenario:
     kind: 'handle' (recording BytesIO passed as file_like) | 'kfo' | 'kfo_gz' (path +
     keep_file_open=True, recording delegate in _opener.fobj); mmap per proxy name."""
 
-    def __init__(self, fs, threads, kind='handle', mmap=None, nolock=False, p0=3, name=''):
+    def __init__(self, fs, threads, kind='handle', mmap=None, nolock=False, p0=3, name='', flavour='bytesio'):
         self.fs, self.threads, self.kind, self.nolock, self.p0, self.name = fs, threads, kind, nolock, p0, name
+        # what the open handle IS (kind 'handle'): 'bytesio' (io.IOBase), 'duck' (hand-written class with read/seek/tell,
+        # not an io.IOBase), 'tempfile' (tempfile.NamedTemporaryFile wrapper), 'opener' (an ImageOpener instance)
+        self.flavour = flavour
         self.big = len(fs.bytes) > 200000       # too large to ship to the model runner as hex
         self.mmap = {'orig': True, 'copy': True, 'copy2': True}
         if mmap:
             self.mmap.update(mmap)
         if kind not in ('handle', 'fresh'):
             self.mmap = {'orig': False, 'copy': False, 'copy2': False}
+        if flavour == 'tempfile':
+            self.mmap['orig'] = False            # a real file would be memory-mapped: no file position involved
         self.mmap['copy'] = self.mmap['copy2'] = self.mmap['orig']      # copy() passes the original's setting on
 
     def desc(self):
-        return {'file': self.fs.desc(), 'kind': self.kind, 'mmap': self.mmap, 'nolock': self.nolock, 'p0': self.p0,
+        return {'file': self.fs.desc(), 'kind': self.kind, 'flavour': self.flavour, 'mmap': self.mmap, 'nolock': self.nolock, 'p0': self.p0,
                 'threads': [{'proxy': t['proxy'], 'outer': t.get('outer', False),
                              'reads': [ix_to_json(ix) for ix in t['reads']]} for t in self.threads]}
 
@@ -558,7 +567,8 @@ class Scenario:
     def from_desc(d):
         return Scenario(FileSpec.from_desc(d['file']),
                         [{'proxy': t['proxy'], 'outer': t['outer'], 'reads': [ix_from_json(j) for j in t['reads']]}
-                         for t in d['threads']], kind=d['kind'], mmap=d['mmap'], nolock=d['nolock'], p0=d['p0'])
+                         for t in d['threads']], kind=d['kind'], mmap=d['mmap'], nolock=d['nolock'], p0=d['p0'],
+                        flavour=d.get('flavour', 'bytesio'))
 
     def build(self, rec, workdir):
         """Fresh handle, lock and proxies."""
@@ -591,10 +601,38 @@ class Scenario:
             self.proxies = {'orig': orig}
             return self
         if self.kind == 'handle':
-            f = WFile(fs.bytes)
-            f.rec, f.wlock = rec, self.wlock
-            self.fobj = f
-            orig = ArrayProxy(f, fs.par(), mmap=self.mmap['orig'], order=fs.order)
+            if self.flavour == 'bytesio':
+                f = WFile(fs.bytes)
+                f.rec, f.wlock = rec, self.wlock
+                handle = f
+                self.tell_raw = lambda: io.BytesIO.tell(f)
+            elif self.flavour == 'duck':
+                inner = io.BytesIO(fs.bytes)
+                handle = WDelegate(inner, rec, self.wlock)
+                self.tell_raw = inner.tell
+            elif self.flavour == 'opener':
+                from nibabel.openers import ImageOpener
+                f = WFile(fs.bytes)
+                f.rec, f.wlock = rec, self.wlock
+                handle = ImageOpener(f)
+                self.tell_raw = lambda: io.BytesIO.tell(f)
+            elif self.flavour == 'tempfile':
+                import tempfile
+                tf = tempfile.NamedTemporaryFile(dir=workdir)
+                tf.write(fs.bytes)
+                tf.flush()
+                raw = tf.file
+                d = WDelegate(raw, rec, self.wlock)
+                # instance attributes of the wrapper take precedence over its delegation: the object handed to
+                # nibabel stays a tempfile._TemporaryFileWrapper, its file calls are recorded and gated
+                tf.seek, tf.tell, tf.read, tf.readinto = d.seek, d.tell, d.read, d.readinto
+                handle = tf
+                self.tell_raw = raw.tell
+                self.close = tf.close
+            else:
+                raise ValueError(self.flavour)
+            self.fobj = handle
+            orig = ArrayProxy(handle, fs.par(), mmap=self.mmap['orig'], order=fs.order)
             set_lock(orig, self.wlock)
         else:
             path = os.path.join(workdir, 'kfo_%s_%d.dat%s' % (fs.dtype.str[1:], fs.offset,
@@ -795,7 +833,9 @@ class Runner:
         rec.scheduled = False
         try:
             endpos = None
-            if sc.kind in ('handle', 'fresh'):
+            if sc.kind == 'handle':
+                endpos = sc.tell_raw()
+            elif sc.kind == 'fresh':
                 endpos = io.BytesIO.tell(sc.fobj)
             if sc.kind == 'fresh':
                 lock_free = all(l.depth == 0 for l in sc.factory_locks)
@@ -905,6 +945,12 @@ def core_scenarios(thorough=False):
         Scenario(big_files()[1], [dict(proxy='orig', reads=[(S(None), S(None), S(None, None, 2))]),
                                   dict(proxy='orig', reads=[(5, 5, 1), (S(0, 8), 3, 2)])],
                  mmap={'orig': False}, name='two 2 MiB segments racing two small reads (same proxy)'),
+        Scenario(A, [dict(proxy='orig', reads=[M2]), dict(proxy='copy', reads=[S1b])], flavour='duck',
+                 name='duck-typed handle (hand-written class, not io.IOBase): proxy + copy()'),
+        Scenario(A, [dict(proxy='orig', reads=[M2]), dict(proxy='copy', reads=['W'])], flavour='tempfile',
+                 name='tempfile.NamedTemporaryFile handle: proxy + copy()'),
+        Scenario(A, [dict(proxy='orig', reads=[S1]), dict(proxy='copy', reads=[M2b]), dict(proxy='copy2', reads=['W'])],
+                 flavour='opener', name='ImageOpener instance as file_like: proxy + copy() + copy of copy'),
         Scenario(A, [dict(proxy='orig', reads=[S1]), dict(proxy='orig', reads=[S1b])], kind='fresh',
                  name='FRESH proxy (never read, copied or inspected): first reads of 2 threads, single segments'),
         Scenario(A, [dict(proxy='orig', reads=[M2]), dict(proxy='orig', reads=['W']), dict(proxy='orig', reads=[S1b])],
@@ -1028,11 +1074,12 @@ def evaluate(chk, sc, progs, wl_ok, single, run, mout, tag):
                 break
         if pred is None and not run['lock_free']:
             pred = 'lock still held after all threads finished'
-        if pred is None and len(run['groups']) == 1:
+        if len(run['groups']) == 1:
             ov = overlapping_sections(run['seq'])
             if ov:
-                pred = (f'no mutual exclusion: thread {ov[0]} made file call {ov[1]} while thread {ov[2]} was inside its '
-                        'critical section (read off the recorded acquire/release/file events)')
+                msg = (f'no mutual exclusion: thread {ov[0]} made file call {ov[1]} while thread {ov[2]} was inside its '
+                       'critical section (read off the recorded acquire/release/file events)')
+                pred = msg if pred is None else pred + '; ' + msg
         if pred is None and run.get('locks_created') not in (None, 1):
             pred = f"{run['locks_created']} lock objects were created for one fresh proxy"
         elif pred and run.get('locks_created') not in (None, 1):
@@ -1158,7 +1205,8 @@ def run(chk: Check):
             ths.append(dict(proxy='orig' if kind == 'fresh' else rng.choice(['orig', 'copy', 'copy2'] if kind == 'handle' else ['orig', 'orig', 'copy', 'copy2']), reads=reads,
                             outer=(rng.random() < 0.2) and kind != 'fresh'))
         rand_scs.append(Scenario(fs, ths, kind=kind, mmap={'orig': rng.random() < 0.5, 'copy': rng.random() < 0.5}
-                                 if kind in ('handle', 'fresh') else None, p0=rng.randrange(0, 64), name='random'))
+                                 if kind in ('handle', 'fresh') else None, p0=rng.randrange(0, 64), name='random',
+                                 flavour=rng.choice(['bytesio', 'bytesio', 'duck', 'tempfile', 'opener']) if kind == 'handle' else 'bytesio'))
     all_scs = [canary] + scs + rand_scs
     import nibabel.openers as _op
     if not _op.HAVE_INDEXED_GZIP:       # without indexed_gzip a .gz path proxy opens a private handle per read
@@ -1296,10 +1344,12 @@ def run(chk: Check):
 def variants_for(fs, rec, workdir, which):
     """(name, proxy, wlock, fobj, close) for one variant of a file."""
     kind = which if which in PATH_KINDS else 'handle'
-    sc = Scenario(fs, [], kind=kind, mmap={'orig': which != 'orig_nommap', 'copy': which != 'copy_nommap',
-                                           'copy2': True} if kind == 'handle' else None)
+    flavour = which.split('_')[0] if which.split('_')[0] in ('duck', 'tempfile', 'opener') else 'bytesio'
+    sc = Scenario(fs, [], kind=kind, mmap={'orig': which not in ('orig_nommap', 'copy_nommap')} if kind == 'handle' else None,
+                  flavour=flavour)
     sc.build(rec, workdir)
-    name = {'copy': 'copy', 'copy_nommap': 'copy', 'copy2': 'copy2'}.get(which, 'orig')
+    name = {'copy': 'copy', 'copy_nommap': 'copy', 'copy2': 'copy2', 'duck_copy': 'copy', 'tempfile_copy': 'copy',
+            'opener_copy': 'copy2'}.get(which, 'orig')
     return sc, sc.proxies[name], sc.mmap[name]
 
 
@@ -1332,7 +1382,8 @@ def part_a(chk, rec, probe):
              FileSpec((2, 3, 33), '>f8', 8, order='C', fill=9), FileSpec((17, 2, 2, 2), '<c16', 0, fill=4),
              FileSpec((40, 7), '<u1', 5, fill=1), FileSpec((300,), '<f4', 12, fill=2), FileSpec((4, 0, 3), '<i4', 4)]
     import nibabel.openers as _op
-    variants = ['orig', 'orig_nommap', 'copy', 'copy_nommap', 'copy2', 'kfo', 'kfo_gz']
+    variants = ['orig', 'orig_nommap', 'copy', 'copy_nommap', 'copy2', 'kfo', 'kfo_gz',
+                'duck_copy', 'tempfile_copy', 'opener_copy', 'duck_orig']
     if _op.HAVE_INDEXED_GZIP:
         variants += ['gz_def', 'gz_false']
     chk.extra['have_indexed_gzip'] = bool(_op.HAVE_INDEXED_GZIP)
